@@ -31,6 +31,8 @@ def body_src(f: int, sc: dict) -> str:
             L.append(f"    raise ValueError('f{f} {which}')")
         elif ft == f"guppy_{which}":
             L.append("    d(1)")
+        elif ft == f"intr_{which}":
+            L.append(f"    raise KeyboardInterrupt('f{f} {which}')")
 
     fault("before")
     if kind == "call":
@@ -89,6 +91,8 @@ def classify_exc(e: BaseException) -> str:
 
     if isinstance(e, ValueError) and str(e).startswith("f"):
         return "py"
+    if isinstance(e, KeyboardInterrupt):
+        return "intr"
     if isinstance(e, GuppyComptimeError):
         return "guppy"
     if isinstance(e, GuppyError):
